@@ -184,7 +184,8 @@ def seqnum(t, extra, d):
         raise Violation(f"VERSION {t} EXTRAVERSION {extra!r}: no usable DEFAULT_SEQ_NUM ({type(e).__name__}: {e}); values {v}", "integer sequence number", bucket="no-seqnum")
 
 
-EXTRAS = [None, "", "alpha", "beta", "rc", "beta1", "rc.2", "rc1", "alpha.0", "foo", "-rc1", "dev", "rc.", "99"]
+EXTRAS = [None, "", "alpha", "beta", "rc", "beta1", "rc.2", "rc1", "alpha.0", "foo", "-rc1", "dev", "rc.", "99",
+          "RC1", "Beta.2", "RC", "ALPHA", "Rc.1", "rc.10", "beta.255", "alpha.1000", "rc 1", " rc1", "rc1 ", "rc-1", "rc_1", "\u0440\u0441", "rc.\u0661"]
 
 
 def judge_tuples(tuples, extras, acc, ctx):
